@@ -24,12 +24,13 @@ def _read_out(cout, n):
 
 # A case on which the implementation does not return (harness/common/val.rs watchdog: the
 # harness writes <out>.hang with the case index and exits 97; every finished case has been
-# flushed) is observed as [-2] = HANG; the cases after it are run in a fresh process with a
-# short deadline.  After MAX_HANGS wedged cases the remaining ones are not run: [-3] = SKIPPED
+# flushed) is observed as HANG (a value no harness can print: observations are
+# nested integer lists); the cases after it are run in a fresh process with a
+# short deadline.  After MAX_HANGS wedged cases the remaining ones are not run: SKIPPED
 # (no verdict, not counted as validated).
 MAX_HANGS = 12
-HANG = [-2]
-SKIPPED = [-3]
+HANG = ['__wedged__']
+SKIPPED = ['__not_run__']
 SHORT_DEADLINE_MS = '8000'
 
 def _hang_index(cout, n):
